@@ -121,6 +121,29 @@ def correspondence(ctx):
         s.meta = {"swap": t, "k": k}
         scns.append(s)
     must_fail_at(ctx, "block-swap", scns, lambda s: s.meta["swap"])
+    # a foreign BRANCH: the blocks stored at heights t-1 and t are a sibling of the indexed block t-1 (same parent, valid merkle
+    # root: it passes every check at t-1) and that sibling's child.  The child's prev-hash is the sibling's hash, not the hash
+    # the index records for height t-1, so the run must fail at height t — the check is against the INDEXED hash, not against
+    # whatever block happened to be read before
+    scns = []
+    for k in range(ctx.n(8, 40)):
+        blocks = GC.gen_chain(r, coin, 6, max_txs=2, segwit=False, scripts=legacy_scripts)
+        t = r.randrange(2, 6)
+        alt = GC.gen_chain(r, coin, 6, max_txs=2, segwit=False, scripts=legacy_scripts)
+        sib, child = alt[t - 1], alt[t]
+        sib.prev = blocks[t - 2].hash()
+        sib.merkle_root = None
+        child.prev = sib.hash()
+        child.merkle_root = None
+        mixed = list(blocks)
+        mixed[t - 1], mixed[t] = sib, child
+        s = K.Scenario(coin=coin, callback="csvdump", verify=True, start=r.randrange(1, t))
+        GC.simple_layout(s, mixed)
+        for i in (t - 1, t):
+            s.kvs[i] = K.record(blocks[i].hash(), i, K.ACTIVE, len(mixed[i].txs), 0, _off(s, mixed, i), blocks[i].header(), undo=1)
+        s.meta = {"branch": t, "k": k}
+        scns.append(s)
+    must_fail_at(ctx, "foreign-branch", scns, lambda s: s.meta["branch"])
 
 
 def _off(s, blocks, t):
